@@ -165,3 +165,78 @@ Print Assumptions C18_remove_only_own_keys.
 Print Assumptions C18_repoint_moves_key.
 Print Assumptions C18_broadcast_exactly_present.
 Print Assumptions C18_spec_inv_reachable.
+
+(** ** the methods of the model are the ones re-translated from the Rust source on this run
+    (bin/rs2v, critical-section mode: Gen/PeersGen.v, Proofs/PeersGenAgree.v).  A rendered method is a
+    [plan]; [run p s] gives the final state, the peers [send_notify] was called on (in order), the
+    number of critical sections and the value.  Every method is ONE critical section -- the model's
+    step or query --, and the broadcast snapshots the handles in that one section and then sends to
+    exactly the snapshotted peers, once each, outside the lock. *)
+From RepeV Require Import Base.GenPeersPrelude Gen.PeersGen Proofs.PeersGenAgree.
+
+Theorem C18_source_translation :
+  match gen_peer_insert with Some f => forall s id, run (f id) s = (fst (pstep s (PInsert id)), [], 1%nat, tt) | None => True end /\
+  match gen_peer_remove with Some f => forall s id, run (f id) s = (fst (pstep s (PRemove id)), [], 1%nat, found s id) | None => True end /\
+  match gen_peer_alias with
+  | Some f => forall s id key, run (f id key) s = (fst (pstep s (PAlias id key)), [], 1%nat, pbool (snd (pstep s (PAlias id key))))
+  | None => True
+  end /\
+  match gen_peer_get with Some f => forall s id, run (f id) s = (s, [], 1%nat, found s id) | None => True end /\
+  match gen_peer_get_by with Some f => forall s key, run (f key) s = (s, [], 1%nat, q_get_by s key) | None => True end /\
+  match gen_peer_key_for with Some f => forall s id, run (f id) s = (s, [], 1%nat, q_key_for s id) | None => True end /\
+  match gen_peer_aliases_for with Some f => forall s id, run (f id) s = (s, [], 1%nat, q_aliases_for s id) | None => True end /\
+  match gen_peer_len with Some f => forall s, run f s = (s, [], 1%nat, q_len s) | None => True end /\
+  match gen_peer_peers with Some f => forall s, run f s = (s, [], 1%nat, p_peers s) | None => True end /\
+  match gen_peer_broadcast_each with
+  | Some f => forall s, ssorted (p_peers s) = true -> run f s = (s, p_peers s, 1%nat, p_peers s)
+  | None => True
+  end.
+Proof. exact c18_source_translation. Qed.
+
+Theorem C18_source_translation_model :
+  (forall s id, snd (pstep s (PRemove id)) = PBool (opt_is_some (found s id))) /\
+  (forall s id key, exists b, snd (pstep s (PAlias id key)) = PBool b) /\
+  (forall s, pstep s PBroadcast = (s, PIds (p_peers s))) /\
+  (forall ops, ssorted (p_peers (fold_left (fun c o => fst (pstep c o)) ops preg_empty)) = true).
+Proof. exact c18_source_translation_model. Qed.
+
+Check C18_source_translation :
+  match gen_peer_insert with Some f => forall s id, run (f id) s = (fst (pstep s (PInsert id)), [], 1%nat, tt) | None => True end /\
+  match gen_peer_remove with Some f => forall s id, run (f id) s = (fst (pstep s (PRemove id)), [], 1%nat, found s id) | None => True end /\
+  match gen_peer_alias with
+  | Some f => forall s id key, run (f id key) s = (fst (pstep s (PAlias id key)), [], 1%nat, pbool (snd (pstep s (PAlias id key))))
+  | None => True
+  end /\
+  match gen_peer_get with Some f => forall s id, run (f id) s = (s, [], 1%nat, found s id) | None => True end /\
+  match gen_peer_get_by with Some f => forall s key, run (f key) s = (s, [], 1%nat, q_get_by s key) | None => True end /\
+  match gen_peer_key_for with Some f => forall s id, run (f id) s = (s, [], 1%nat, q_key_for s id) | None => True end /\
+  match gen_peer_aliases_for with Some f => forall s id, run (f id) s = (s, [], 1%nat, q_aliases_for s id) | None => True end /\
+  match gen_peer_len with Some f => forall s, run f s = (s, [], 1%nat, q_len s) | None => True end /\
+  match gen_peer_peers with Some f => forall s, run f s = (s, [], 1%nat, p_peers s) | None => True end /\
+  match gen_peer_broadcast_each with
+  | Some f => forall s, ssorted (p_peers s) = true -> run f s = (s, p_peers s, 1%nat, p_peers s)
+  | None => True
+  end.
+Check C18_source_translation_model :
+  (forall s id, snd (pstep s (PRemove id)) = PBool (opt_is_some (found s id))) /\
+  (forall s id key, exists b, snd (pstep s (PAlias id key)) = PBool b) /\
+  (forall s, pstep s PBroadcast = (s, PIds (p_peers s))) /\
+  (forall ops, ssorted (p_peers (fold_left (fun c o => fst (pstep c o)) ops preg_empty)) = true).
+
+(** the definitions used above are the plain ones *)
+Check (eq_refl : found = fun s id => if q_get s id then Some id else None).
+Check (eq_refl : pbool = fun o => match o with PBool b => b | _ => false end).
+Check (eq_refl : ssorted = fix ssorted (l : list N) : bool :=
+  match l with
+  | x :: ((y :: _) as l') => (x <? y) && ssorted l'
+  | _ => true
+  end).
+Check (eq_refl : @run = fix run (R : Type) (p : plan R) (s : preg) {struct p} : preg * list N * nat * R :=
+  match p with
+  | PDone r => (s, [], O, r)
+  | PStep f => let '(s', p') := f s in let '(s'', sends, n, r) := run R p' s' in (s'', sends, S n, r)
+  | PSend id p' => let '(s', sends, n, r) := run R p' s in (s', id :: sends, n, r)
+  end).
+
+Print Assumptions C18_source_translation.
+Print Assumptions C18_source_translation_model.
